@@ -210,7 +210,7 @@ void xv_env(void) {
 #else
 #define XV_HAVOC_EHCB_G ((void)0)
 #endif
-#define XV_HAVOC_EHCB epoch = nondet_uint(); self->control_block->local_epoch = nondet_uint() /* local_epoch */; mon_own_stores = nondet_uint(); \
+#define XV_HAVOC_EHCB /* global_epoch: the CAS(epoch, epoch) never changes its value; INT mode: XV_HAVOC_EHCB_G */ epoch = nondet_uint(); self->control_block->local_epoch = nondet_uint() /* local_epoch */; mon_own_stores = nondet_uint(); \
                       mon_g_cas = nondet_uint(); mon_g_cas_ok = nondet_bool(); mon_g_cas_exp = nondet_uint(); mon_g_cas_des = nondet_uint(); \
                       mon_own_stored_any = nondet_bool(); mon_own_store_after_cas = nondet_bool(); mon_g_cas_any = nondet_bool(); \
                       mon_own_store_clock = nondet_u64(); mon_g_cas_clock = nondet_u64(); xv_clock = nondet_u64(); XV_HAVOC_EHCB_G
